@@ -25,6 +25,7 @@ func main() {
 	keep := fs.Bool("keep", false, "keep SMT files")
 	only := fs.String("solver", "", "restrict to solver prefix (z3-5, z3-4, cvc5)")
 	timeout := fs.Int("timeout", 0, "per-query timeout seconds (0 = tier default)")
+	out := fs.String("out", "", "directory for evidence/ and replay/ (default: the verif root)")
 	var pos []string
 	args := os.Args[2:]
 	for len(args) > 0 && !strings.HasPrefix(args[0], "-") {
@@ -36,7 +37,7 @@ func main() {
 	if t := os.Getenv("VERIF_TIER"); t != "" && *tier == "quick" {
 		*tier = t
 	}
-	r := &Runner{repo: *repo, verif: *verif, tier: *tier, verbose: *verbose, keep: *keep, timeout: *timeout}
+	r := &Runner{repo: *repo, verif: *verif, tier: *tier, verbose: *verbose, keep: *keep, timeout: *timeout, out: *out}
 	if *only != "" {
 		r.only = strings.Split(*only, ",")
 	}
@@ -67,6 +68,7 @@ type Runner struct {
 	eng               *Engine
 	eng32             *Engine
 	workdir           string
+	out               string
 }
 
 func (r *Runner) load() error {
@@ -78,6 +80,7 @@ func (r *Runner) load() error {
 		return err
 	}
 	r.eng = e
+	e.verifDir = r.verif
 	if len(e.db.Errs) > 0 {
 		return fmt.Errorf("contract errors:\n  %s", strings.Join(e.db.Errs, "\n  "))
 	}
